@@ -16,7 +16,7 @@ def CG (t : Ty) : Prop := Ty.WF cfg t ∧ t.TA sfh
 
 theorem cg_leaf (t : Ty) (h : match t with
     | .any | .undef | .dflt | .scalar | .scalarData | .numeric | .data | .richData | .str | .bin | .int _ | .float _ _ | .bool _
-    | .tspan _ | .strSz _ | .strVal _ | .pattern _ | .regexp _ | .coll _ | .object _ => True
+    | .tspan _ | .tstamp _ | .strSz _ | .strVal _ | .pattern _ | .regexp _ | .coll _ | .object _ => True
     | _ => False) : CG cfg sfh t := by
   cases t <;> simp only [] at h <;> (first | contradiction | simp [CG, Ty.WF, Ty.TA])
 
